@@ -1,4 +1,5 @@
 import FlowCalModel.Excel
+import FlowCalModel.Generated
 /-!
 # C11 — In a batch, a failing row is reported in place and does not affect other rows
 -/
@@ -99,6 +100,23 @@ theorem healthy_row_no_fault (r : SampleRow) (h1 : r.fileFound = true) (h2 : 400
     intro c hc
     exact h3 c hc
   simp [sampleRowFault, h1, hn, hf, h4]
+
+/-- the decision table's MEF branch is "first failing check" over `mefChecks`, … -/
+theorem channelFault_mef (bt : Bool) (u : List Char) (m : MefFacts) (hu : classify u = .mef) :
+    channelFault bt u m = ((mefChecks bt m).find? (·.2)).map (·.1) := by
+  obtain ⟨f, i, h, a, v⟩ := m
+  unfold channelFault mefChecks
+  rw [hu]
+  cases bt <;> cases f <;> cases i <;> cases h <;> cases a <;> cases v <;> rfl
+
+/-- … whose order is the order of the raise sites in the source, … -/
+theorem mefChecks_in_source_order (bt : Bool) (m : MefFacts) :
+    (mefChecks bt m).map (·.1) = (sampleFaultSites.drop 2).take 6 := rfl
+
+/-- … and the raise sites the model lists are the ones the source has now, in the same order (regenerated on every run) -/
+theorem raise_sites_match_source :
+    Generated.sampleRaiseSites = sampleFaultSites.map faultMessage ∧ Generated.beadsRaiseSites = beadsFaultSites.map faultMessage := by
+  constructor <;> rfl
 
 /-! Non-vacuity: a 3-row table, middle row faulty -/
 example : processTable (fun (n : Nat) => if n = 0 then RowOutcome.fault Fault.gateFraction else RowOutcome.ok (n * 2))
